@@ -817,6 +817,7 @@ func checkC03(c *core.Ctx) {
 	collect(c03LetDriver(lp))
 	collect(c03ForeignDriver(fa))
 	collect(c03FunResultDriver())
+	collect(c03BindersDriver())
 	c.Count(0, total.States, total.Transitions, 0)
 	const per = 150
 	var wg sync.WaitGroup
